@@ -112,7 +112,7 @@ func c07Known(g *gspec.Grammar, side string) string {
 		if _, cyc := gspec.HasCycle(gspec.FirstOverNoThrow(g)); !cyc && kfOpen("KF-C07-THROW") {
 			return "KF-C07-THROW"
 		}
-		if gspec.NullableAltNotLast(g) && kfOpen("KF-C07-SHORTCIRCUIT") {
+		if _, cyc := gspec.HasCycle(gspec.FirstShortCircuit(g)); !cyc && kfOpen("KF-C07-SHORTCIRCUIT") {
 			return "KF-C07-SHORTCIRCUIT"
 		}
 		if inPred && kfOpen("KF-C07-PREDICATE") {
